@@ -45,6 +45,10 @@ def c08_scenarios(tier, rng):
                         for (i, j) in [(1, 2), (1, 3), (2, 3), (3, 1)]:
                             for r in ("abn", "kill"):
                                 hists.append([{"op": "batchstart", "faults": [[i, r]], "i": j}, {"op": "batch", "faults": [[1, "abn"]]}])
+                        # the supervisor is told to stop while a child is busy and then leaves with a reason of its own
+                        for (i, why, r2) in [(n, "shutdown", "own"), (1, "sig", "own"), (2, "shutdown", "normal"), (n, "sig", "shutdown")]:
+                            hists.append([{"op": "exitsup", "faults": [[i, r2]], "why": why}])
+                        hists.append([{"op": "batch", "faults": [[1, "abn"]]}, {"op": "exitsup", "faults": [[n, "own"]], "why": "shutdown"}])
                         # overlapping deaths: two children die before the supervisor handles the first
                         pairs = [(i, j) for i in range(1, n + 1) for j in range(1, n + 1) if i != j]
                         for (i, j) in pairs:
